@@ -123,3 +123,12 @@ package duct
 //@   requires wfroot(m.code)
 //@   ensures wfroot(result.code)
 //@   ensures step_lands_in_innermost_open_context: result.code == ins(m.code, asnode(mkyield(tname(rtypeof(B)), target.v)))
+
+// the carriers of sources, targets and functions keep what they are given
+//@ func L1
+//@   props C16
+//@   ensures result.v == f
+
+//@ func L2
+//@   props C16
+//@   ensures result.f == f
